@@ -3,7 +3,7 @@ PROP = {'engine': 'stack',
  'test': 'TestC05',
  'level': 'exploration',
  'quick': {'checks': 110, 'shards': 14, 'timeout': 1200},
- 'thorough': {'checks': 900, 'shards': 14, 'timeout': 3400},
+ 'thorough': {'checks': 2000, 'shards': 14, 'timeout': 3400},
  'rule': 'families: stall (a party stops for ever in phase: extension before register / before next / after the event, runtime before first next / '
          'before response / after response before next), race (the runtime posts its response delta in [-40,+40] ms around expiry), hook (expiry '
          'paused at vhook invoke.timeoutFired or reset.flowsCancelled while the runtime responds and returns to next); 0-2 extensions, SHUTDOWN '
